@@ -375,6 +375,57 @@ def rand_mixed(r, resize=True):
     return c
 
 
+def rand_scrolled_off(r):
+    """a render TALLER than the rows available with cursor_pos on a row that is scrolled off the top (the cursor is
+    clamped to row 0), followed DIRECTLY by get_cursor_vertical_diff (no movement at all), then optionally a resize
+    with movement and another diff"""
+    h, w = r.randint(1, 4), r.randint(2, 4)
+    crow = r.randint(0, h - 1)
+    c = dict(h=h, w=w, screen=rand_junk(r, h, w), sb=[rand_junk(r, 1, w, False)[0] for _ in range(r.choice([0, 1, 2]))],
+             cursor=(crow, 0), hide=r.random() < 0.5, keep=r.random() < 0.5, steps=[("E",)], pyte=False)
+    for _ in range(r.randint(1, 2)):
+        n = h + r.randint(1, 3)
+        rows = rand_rows(r, n, w)
+        c["steps"].append(("R", (r.choice([0, 0, 1, r.randint(0, n - 1)]), r.randint(0, w - 1)), rows))
+        c["steps"].append(("D",))
+        if r.random() < 0.4:
+            new_h = r.choice([x for x in range(max(1, h - 1), h + 3) if x != h])
+            c["steps"] += [("M?", new_h, r.randint(-2, 2)), ("D",)]
+            h = new_h
+    c["steps"].append(("X",))
+    return c
+
+
+def conservation(c, res):
+    """C18 on a history: at every get_cursor_vertical_diff, (change of top_usable_row) + (returned) = the movement of
+    the cursor since the last render or diff, where the cursor WAS is taken from the reference terminal, i.e. from the
+    cursor address the window actually wrote (its last CSI r;c H) - not from the window's own _last_cursor_row."""
+    top = known = None
+    for i, (st, o) in enumerate(zip(c["steps"], res)):
+        if "error" in o:
+            return "step %d: %s" % (i, o["error"])
+        if st[0] == "M":
+            continue
+        row = o["state"]["cursor"][0]
+        if st[0] == "D":
+            if known is not None and (o["top"] - top) + o["ret"] != row - known:
+                return ("step %d: get_cursor_vertical_diff changed top_usable_row by %d and returned %d, but the cursor moved "
+                        "%d rows (it was written to row %d, the terminal reports row %d)" % (i, o["top"] - top, o["ret"], row - known, known, row))
+            if o["last"] != row:
+                return "step %d: _last_cursor_row %r, the terminal reported row %d" % (i, o["last"], row)
+        if st[0] in ("E", "R", "D"):
+            top = o["top"]
+        if st[0] == "D":
+            known = row
+        elif st[0] == "R":
+            # where the render put the cursor: the address it wrote (last CSI r;c H).  (It differs from the terminal's
+            # cursor row only when that address is below the screen: top_usable_row = height after the terminal shrank
+            # to one row - the window then has no row left, see the note in oracle().)
+            cups = [op for op in o["ops"] if op[0] == "cup"]
+            known = cups[-1][1] if cups else row
+    return None
+
+
 def settle(c):
     """turn the tentative moves ('M?') into feasible ones (the cursor must stay on the screen: 0 <= row + k < new_h) by
     running the history once; the tie then runs the settled history again"""
@@ -405,6 +456,7 @@ def check(ctx):
     cases = [rand_history(r) for _ in range(8000 if ctx.thorough else 3000)] + exhaustive(ctx)
     cases += [settle(rand_mixed(r)) for _ in range(3000 if ctx.thorough else 700)]
     cases += [settle(rand_mixed(r, resize=False)) for _ in range(600 if ctx.thorough else 150)]
+    cases += [settle(rand_scrolled_off(r)) for _ in range(1000 if ctx.thorough else 250)]
     outs = {}
 
     def impl(c):
